@@ -117,6 +117,7 @@ P("dns_typeA", TYPE_A); P("dns_classIN", CLASS_IN); P("dns_timeout", DNS_TIMEOUT
 P("rs_start", RS_START_DELAY); P("rs_stop", RS_STOP_DELAY); P("rs_dbl", RELAY_DOUBLE_TRY);
 P("rs_up", RS_RELAY_UP); P("rs_down", RS_RELAY_DOWN); P("rs_off", RS_RELAY_OFF);
 P("rs_max", RS_MAX_COUNT); P("input_max", INPUT_MAX_COUNT); P("relay_max", RELAY_MAX_COUNT);
+P("in_mincycle", INPUT_MIN_CYCLE_COUNT); P("in_cycle", INPUT_CYCLE_TIME); P("in_silent", INPUT_SILENT_STARTUP_TIME_MS);
 """, includes_c=["supla_esp.h", "supla_esp_gpio.h", "supla_esp_rs_fb.h"])
     # literals inside supla_esp_gpio_rs_set_relay / supla_esp_gpio_relay_hi (fail closed if the text changes shape)
     rs = open(os.path.join(C.REPO, "src/user/supla_esp_rs_fb.c")).read()
@@ -206,6 +207,9 @@ def emit_consts():
         "def rsMaxCount : Nat := %s" % k["rs_max"],
         "def inputMaxCount : Nat := %s" % k["input_max"],
         "def relayMaxCount : Nat := %s" % k["relay_max"],
+        "def inputMinCycle : Nat := %s" % k["in_mincycle"],
+        "def inputCycleMs : Nat := %s" % k["in_cycle"],
+        "def inputSilentMs : Nat := %s" % k["in_silent"],
         "def calConsts : CalConsts :=",
         "  { cmdEnterCfg := %s, cmdRecalibrate := %s, dtRsSettings := %s, rsSettingsSize := %s," % (
             k["cal_enter"], k["cal_recal"], k["cal_dt_rs"], k["cal_rs_size"]),
